@@ -1,7 +1,7 @@
 (* C20 — property theorems only.  Every proof is `exact <lemma>` or a closed computation on a witness. *)
 From Coq Require Import List NArith ZArith Bool.
 Import ListNotations.
-From VF Require Import C20.Model C20.Proofs C20.ProofsB C20.ProofsC C20.ProofsD C20.ProofsE.
+From VF Require Import C20.Model C20.Proofs C20.ProofsB C20.ProofsC C20.ProofsD C20.ProofsE C20.ProofsF.
 Local Open Scope N_scope.
 
 (* FULL STATEMENT, verifier side (repaired code).  For every definition (any descriptors with distinct ids, any
@@ -136,6 +136,20 @@ Theorem iterator_excluded_never_reappears : forall r it ex exs outs x,
   iter_run r it (ex :: exs) = Some outs -> In x ex -> forall sol, In sol outs -> ~ In x sol.
 Proof. exact excluded_gone. Qed.
 Print Assumptions iterator_excluded_never_reappears.
+
+(* COMPLETENESS of the solution iterator (the exclusion arithmetic).  For every requirement and distinct descriptors:
+   in any run of Next calls that follows the holder's protocol (nothing excluded at the first call; afterwards only
+   descriptors of the set returned last, any number of them at once) and reaches the end (a call returned nothing),
+   every non-empty selection T of the descriptors that were never excluded (any bit mask u over them) that satisfies
+   the requirement was returned by one of the calls.  So CreateVP answers ErrNoCredentials only when no satisfying
+   selection of satisfiable descriptors exists. *)
+Theorem iterator_complete : forall r descs exs outs,
+  NoDup (it_descs (new_iter r descs)) ->
+  iter_run r (new_iter r descs) exs = Some outs -> protocol [] exs outs -> In [] outs ->
+  forall u, let T := current u (filter (kept (concat exs)) (it_descs (new_iter r descs))) in
+            T <> [] -> satisfied r T = true -> In T outs.
+Proof. exact iterator_complete_lemma. Qed.
+Print Assumptions iterator_complete.
 
 (* Termination of the model's iterator: on an iterator made by NewBitsetIterator every sequence of Next calls with
    any exclude lists runs to the end; the fuel S(2^|descs|) of the search is never exhausted (the state stays below
@@ -281,3 +295,12 @@ Example iterator_nonvacuous :
   let r := Req [] [Req [1; 2; 3] [] 3 0 0; Req [4] [] 1 0 0] 1 0 0 in
   iter_run r (new_iter r [1; 2; 3; 4]) [[]; [3]; []] = Some [[1; 2; 3]; [4]; [1; 4]].
 Proof. vm_compute. reflexivity. Qed.
+
+(* non-vacuity, completeness: pick 1 of [all of {1,2,3}; all of {4}], descriptor 3 unsatisfiable: the run ends, the
+   protocol holds, and both satisfying selections without 3 that exist ({4} and {1,4}, {2,4}, {1,2,4}) were returned *)
+Example iterator_complete_nonvacuous :
+  let r := Req [] [Req [1; 2; 3] [] 3 0 0; Req [4] [] 1 0 0] 1 0 0 in
+  exists outs, iter_run r (new_iter r [1; 2; 3; 4]) [[]; [3]; []; []; []; []] = Some outs /\
+               protocol [] [[]; [3]; []; []; []; []] outs /\ In [] outs /\
+               In [4] outs /\ In [1; 4] outs /\ In [2; 4] outs /\ In [1; 2; 4] outs.
+Proof. eexists. split; [vm_compute; reflexivity|]. simpl. intuition. Qed.
